@@ -181,6 +181,7 @@ type Exec struct {
 	lastArgs    map[string]*Val
 	visitedBlocks map[*ssa.BasicBlock]bool
 	sinkArgs      []*Val
+	sinkHit       map[string]bool // sink clauses whose callee was reached on some path
 	allocBase0  *Term
 	topMods     []modTarget
 	autoHeader  []autoMark
